@@ -165,7 +165,10 @@ CLAIMED["C13"] = {
     "nested_sampling_loop (statement-granular interruption points, callee "
     "contracts from C01/C15); the handler is proved to request exactly one "
     "forced checkpoint and to end in SystemExit(self.exit_code) on every "
-    "path; the importance sampler's checkpoint is proved not to write for "
+    "path; FlowSampler.__init__ is proved to register self.safe_exit for "
+    "SIGTERM, SIGINT and SIGALRM (ghost handler table) and to store the "
+    "configured exit code (fresh construction; sampler construction "
+    "opaque); the importance sampler's checkpoint is proved not to write for "
     "a non-periodic (signal) request, so its last boundary checkpoint is "
     "intact. RI FAILS at 18 statement boundaries of the standard sampler "
     "(inside consume_sample, insert_live_point and finalise): a genuine "
@@ -255,7 +258,16 @@ CLAIMED["C12"] = {
     "model's values at pickling time; function contracts: "
     "resume_from_pickled_sampler adds the pickled count to the model's "
     "counter exactly once and wires model / resumed; check_resume restores "
-    "`populated` for a pool that was populated at the checkpoint.",
+    "`populated` for a pool that was populated at the checkpoint; "
+    "timings (clock model: now() is a fresh real not below any earlier "
+    "time; ghost attribute ghost_proc_start): BaseNestedSampler.checkpoint "
+    "adds exactly the time since a non-stale start time, never decreases "
+    "the total and moves the start time to the instant it counted up to; "
+    "update_history records a value between the total and the total plus "
+    "the time since the start; in both nested_sampling_loop bodies every "
+    "callee that may read the start time (found by read-frame inference) "
+    "is reached only after this process has reset it (a genuine defect of "
+    "the importance sampler found here and fixed: e648c82).",
     "note": "NOT decided: that pickle / torch.load reproduce array and "
     "tensor contents (assumed library round trip), float32 agreement of "
     "recomputed INS densities, double counting when the SAME model object "
@@ -310,13 +322,21 @@ CLAIMED["C07"] = {
     "ScaleAndShift.reparameterise / inverse_reparameterise (per-parameter "
     "loop unrolled for two names; values, scales, shifts symbolic; "
     "non-sampling fields untouched; round trip and cancelling Jacobians) "
-    "and RescaleToBounds._rescale_to_bounds / _inverse_rescale_to_bounds; "
+    "and RescaleToBounds._rescale_to_bounds / _inverse_rescale_to_bounds "
+    "(scalar and array arguments) and RescaleToBounds.reparameterise / "
+    "inverse_reparameterise on arrays (two parameters with their own "
+    "bounds / offsets / rescale bounds, no boundary inversion, without and "
+    "with the logit post-rescaling): closed forms, log-Jacobian in image "
+    "and log space, non-sampling fields and the other array untouched, "
+    "and the round trip of the whole reparameterisation as a pair lemma; "
     "the prime prior: log_uniform_prior is the log-indicator of "
     "[xmin, xmax] and RescaleToBounds.x_prime_log_prior is the product of "
     "the per-parameter uniform priors (support = the box of prime bounds; "
     "two parameters unrolled), raising exactly when no prime prior is "
     "configured.",
     "note": "NOT under contract (named as unverified): RescaleToBounds "
+    "constructor / configure_* (which options combine: seed C07-d is "
+    "missed), pre-rescaling, "
     "inversion (split / duplicate), update_bounds / update_prime_prior_bounds "
     "(how the prime bounds are derived), Angle, "
     "ToCartesian, AnglePair, CombinedReparameterisation, "
@@ -347,7 +367,12 @@ CLAIMED["C08"] = {
     "inlined check_prior_bounds, with and without returned latent points) "
     "attaches to every returned point exactly the density forward_pass "
     "computes for it, returns only in-bounds points and keeps x / log_prob "
-    "/ z aligned. Failed obligations are replayed on a concrete affine "
+    "/ z aligned. Importance proposal: the real inverse_rescale is the "
+    "abstract map Ri when clipping is off (proved) and is NOT when "
+    "clip=True (known finding, witnessed on the real code: the density "
+    "attached at generation is that of the un-clipped point); the "
+    "constructor stores clip as given and leaves it off by default. "
+    "Failed obligations are replayed on a concrete affine "
     "instance built from the package's own NFlow / FlowModel / FlowProposal "
     "classes (replay/c08_flow.py).",
     "note": "NOT decided here: that the built-in RealNVP / MAF / NSF "
